@@ -99,6 +99,29 @@ func engBaseDoc(src []string) *document.Document {
 		d.AddParagraph(l)
 	}
 	_ = d.AddHeader(document.HeaderFooterTypeDefault, "HDR {{v}}")
+	// a table after the paragraphs (the projection of a render reads top-level paragraphs only, so the
+	// reference result is unaffected): placeholders in one run, split between runs exactly between the
+	// opening braces and inside the name, a static row, and a nested table. The deep before/after
+	// snapshot of the base document covers all of it.
+	if t, err := d.AddTable(&document.TableConfig{Rows: 2, Cols: 2, Width: 4000}); err == nil && t != nil {
+		_ = t.SetCellText(1, 0, "cell {{v}}")
+		_ = t.SetCellText(0, 1, "static")
+		if len(t.Rows) == 2 && len(t.Rows[0].Cells) == 2 {
+			split := func(parts ...string) []document.Paragraph {
+				p := document.Paragraph{}
+				for _, x := range parts {
+					p.Runs = append(p.Runs, document.Run{Text: document.Text{Content: x}})
+				}
+				return []document.Paragraph{p}
+			}
+			// row 0 holds no complete "{{" in any single run
+			t.Rows[0].Cells[0].Paragraphs = split("{", "{v}} tail")
+			t.Rows[1].Cells[1].Paragraphs = split("head {{", "v", "}}")
+		}
+		if in, err := t.AddNestedTable(1, 0, &document.TableConfig{Rows: 1, Cols: 1, Width: 1000}); err == nil && in != nil {
+			_ = in.SetCellText(0, 0, "nested {{v}}")
+		}
+	}
 	return d
 }
 
